@@ -69,6 +69,10 @@ add("C15", "exploration", EXPL,
     "Sequences of 0-12 protocol messages (all variants, boundary ids and trace ids, empty/unicode/64 KiB bodies, every io::ErrorKind) through the shipped serde transport with JSON and bincode over a SimPipe that fragments reads and writes (down to byte-by-byte), returns Pending, limits capacity and adds latency, and through the in-memory bounded/unbounded channels; reader's items must equal writer's, then end-of-stream; hand-built JSON frames omit optional fields.",
     "Split positions are sampled by the tape, not enumerated.", "DESIGN.md §5 C15, §7 D1")
 
+add("C20", "exploration", EXPL,
+    "RoundRobin over 1-5 scripted backends driven by 1-6 concurrent caller tasks (with abandoned calls and preemption at the cursor's yield point, hook H4): per-backend selection counts never differ by more than one after any selection; ConsistentHash with fixed-key SipHash and degenerate hashers: equal requests map to one valid backend; Retry against a reference retry loop: attempts numbered 1,2,3.., identical Arc-shared request, stops exactly when the policy declines, last result returned unchanged.",
+    "The consistent-hash clause is input sampling (no schedule dependence); backends are scripted stubs.", "DESIGN.md §5 C20")
+
 NOT_YET = {}
 NOT_APPLICABLE = {
     "C17": "quantifies over programs (service definitions) and is decided at macro-expansion/compile time; the generated glue has no schedule, clock, fault or interleaving of its own for a simulator to vary",
